@@ -49,18 +49,18 @@ Fixpoint descendants_first (m : lmap) (owners : list bytes) : bool :=
     && descendants_first m r
   end.
 
-Definition step_spec (c : cfgT) (w : wobs) (s : step) : bool :=
-  match s_cmd s with
+Definition step_spec (c : cfgT) (w : wobs) (v : sview) : bool :=
+  match v_cmd v with
   | CUmount n all =>
-    if negb (plain_env (s_env s)) then true else
-    let f := wo_fs w in let w' := after w s in
+    if negb (plain_env (v_env v)) then true else
+    let f := wo_fs w in let w' := v_after v in
     let m := layers_on_disk c f in
     let tab := ks_tab (wo_ks w) in let tab' := ks_tab (wo_ks w') in
-    let calls := syscalls (s_oplog s) in
+    let calls := syscalls (v_log v) in
     match n, all with
     | [], false =>
       (* names neither a layer nor -all: fails, changes nothing *)
-      rclass_beq (s_res s) RFail && unchanged w s && match calls with [] => true | _ => false end
+      rclass_beq (v_res v) RFail && unchanged w v && match calls with [] => true | _ => false end
     | _ :: _, false =>
       match lm_get m n with
       | None => true
@@ -68,7 +68,7 @@ Definition step_spec (c : cfgT) (w : wobs) (s : step) : bool :=
         let bld := build_path c x in
         calls_legal f (wo_ks w) calls [bld]
         && frame [bld] tab tab'
-        && match s_res s with
+        && match v_res v with
            | ROk => negb (any_at_or_under tab' bld)
            | _ => true
            end
@@ -78,15 +78,15 @@ Definition step_spec (c : cfgT) (w : wobs) (s : step) : bool :=
       calls_legal f (wo_ks w) calls roots
       && frame roots tab tab'
       && descendants_first m (dedup_adj (map (owner c m) (umount_targets calls)))
-      && match s_res s with
+      && match v_res v with
          | ROk =>
            (* success: no layer was busy and every layer ends unmounted *)
-           forallb (fun x => negb (existsb (in_mount_dirs c) (users_of (s_users s) (l_name x)) && has_mounts c tab x)
+           forallb (fun x => negb (existsb (in_mount_dirs c) (users_of (v_users v) (l_name x)) && has_mounts c tab x)
                              && negb (any_at_or_under tab' (build_path c x))) m
          | RFail =>
            (* busy layers are skipped and reported; every layer still mounted at the end is busy *)
            forallb (fun x => negb (any_at_or_under tab' (build_path c x))
-                             || busy_for_umount c tab' (s_users s) x) m
+                             || busy_for_umount c tab' (v_users v) x) m
          | _ => true
          end
     | _, _ => true
@@ -94,7 +94,7 @@ Definition step_spec (c : cfgT) (w : wobs) (s : step) : bool :=
   | _ => true
   end.
 
-Definition spec (c : case) : bool := along (step_spec (c_cfg c)) (w0 c) (c_steps c).
+Definition spec (c : case) : bool := along_views (step_spec (c_cfg c)) (w0 c) (c_steps c).
 Definition wf := LC.wf.
 Definition kf (c : case) : N := 0.
 Definition verdict (c : case) : N := mkverdict (wf c) (LC.corr c) (spec c) (kf c).
